@@ -760,6 +760,8 @@ class Interp:
                     return self.inline(cn, owner, m, slf.is_self, args, kw, cx, e)
             return raw(alld, deg={})
         fv = self.ev(f, env, cx)
+        if fv.k == "lambda":          # (lambda x: …)(a), or a closure reached through an expression
+            return self.call_closure(fv, args, kw, cx)
         if fv.k == "meth" and fv.meths:
             if isinstance(f, ast.Subscript):     # dispatch through a dict of bound methods
                 cx.ctl.append(fv.deps)
